@@ -61,7 +61,7 @@ def body(case, env):
     with open(base, 'rb') as f: orig = f.read()
     def blk(buf, n): return buf[n * bs:(n + 1) * bs]
     results = {}
-    obs_base = dict(fs=cfg['name'], fmt64=case['fmt64'], csum=case['csum'], async_commit=case['async'], damage=info['damage'], damage_at=info['damage_at'], accepted=info['accepted'], log=info['log'], start=info['start'], first=info['first'], maxlen=info['maxlen'], seq0=case['seq0'])
+    obs_base = dict(fs=cfg['name'], fmt64=case['fmt64'], csum=case['csum'], async_commit=case['async'], damage=info['damage'], damage_at=info['damage_at'], damaged_seq=(info['log'][info['damage_at']]['seq'] if info['damage'] != 'none' and info['damage_at'] < len(info['log']) else None), accepted=info['accepted'], log=info['log'], start=info['start'], first=info['first'], maxlen=info['maxlen'], seq0=case['seq0'])
     for fe in FRONTENDS:
         w = os.path.join(d, 'c03w.img'); shutil.copyfile(img, w)
         if fe == 'debugfs jr': r = vrun.run([t.debugfs, '-w', '-R', 'jr', w], merge=True, cpu=120)
